@@ -278,7 +278,7 @@ def run(ck, facts, tier):
             ck.ok(R, inst, "%d call(s), all against a value derived from `%s`" % (len(cms), param))
         else:
             ck.violation(R, inst, b.where(), "the filter is applied %d time(s), %d of them against the goal being solved" % (len(cms), len(good)))
-    ck.floor(R, "could_match-call-sites", n, 4)
+    ck.floor(R, "could_match-call-sites", n, 3)
     sole_filter(ck, facts)
 
 
@@ -361,7 +361,7 @@ def sole_filter(ck, facts):
                              "the predicate is not `could_match(..)` (and trait-id equality): evaluates to %s when every test succeeds" % r)
             else:
                 ck.ok(R, inst, "conjunction of %d test(s), all could_match / trait-id equality" % len(atoms))
-    ck.floor(R, "filter-sites", n, 8)
+    ck.floor(R, "filter-sites", n, 4)
 
 
 def alias_rows(ck, facts, R):
